@@ -23,8 +23,8 @@ from checks.c17 import printed_values, run_harness_bin, _replay_payload
 
 PROP = "C16"
 SPEC_DIR = os.path.join(vlib.SPEC, "lu")
-CHUNK = 2500
-PARALLEL = 8
+CHUNK = 2500          # at most this many scenarios per trace-validation TLC run
+PARALLEL = 12
 
 ASSUMPTIONS = [
     "exact small-integer domain only: real 1x1 and 2x2 over -2..2, 3x3 over {-1,0,1} (thorough: 3x3 over -2..2), "
@@ -55,7 +55,9 @@ def _signature(clause, sc):
 
 
 def _validate(work, scen, tag, mutate=None):
-    chunks = [scen[k:k + CHUNK] for k in range(0, len(scen), CHUNK)] or [[]]
+    # interleaved chunks: the scenarios are sorted by kind and size, and a complex 3x3 costs five times a real 2x2
+    nch = max(-(-len(scen) // CHUNK), min(PARALLEL, -(-len(scen) // 200)), 1)
+    chunks = [scen[k::nch] for k in range(nch)]
     jobs = []
     t0 = time.time()
     nlines = 0
@@ -82,7 +84,7 @@ def _validate(work, scen, tag, mutate=None):
 
     def one(job):
         k, tfile, nl = job
-        r = vlib.tlc("Trace_LU", "Trace_LU.cfg", cwd=SPEC_DIR, workers=1, deque=True, xss=True, xmx="4g",
+        r = vlib.tlc("Trace_LU", "Trace_LU.cfg", cwd=SPEC_DIR, workers=1, deque=True, xss=True, xmx="3g",
                      env={"TRACE": tfile}, metadir=os.path.join(work, f"tlc-{tag}-{k}", "states"), timeout=3000)
         try:
             os.remove(tfile)
@@ -135,7 +137,7 @@ def run(tier, seed, replay, keep, mutate=None):
             return 1 if n_new else 0
 
         cfg = "MC_LU.cfg" if tier == "quick" else "MC_LU_thorough.cfg"
-        r = vlib.tlc("MC_LU", cfg, cwd=SPEC_DIR, workers=8, xmx="12g", timeout=3000,
+        r = vlib.tlc("MC_LU", cfg, cwd=SPEC_DIR, workers=8, xmx="12g", timeout=3000, env={"C16_SEED": int(seed)},
                      metadir=os.path.join(work, "tlc-mc", "states"))
         if not r.ok:
             vlib.log(r.out[-6000:])
